@@ -66,7 +66,7 @@ def _build():
     return vf.build_driver("explex", extra_overlay=ov)
 
 
-def _base_files(wd, tier):
+def _base_files(wd, tier, plan=None):
     """Valid base files for the mutation relation, in a deterministic order, small files first."""
     paths = sorted(glob.glob(os.path.join(vf.REPO, "internal", "testdata", "*.proto")))
     for sub in ("internal/lexer/testdata", "parser/testdata", "ast/printer/testdata", "ir/testdata"):
@@ -81,11 +81,12 @@ def _base_files(wd, tier):
     rng = vf.rng()
     if tier == "quick":
         small = [p for s, p in sized if 40 <= s <= 700]
-        pick = frag + rng.sample(small, min(10, len(small)))
+        pick = frag + rng.sample(small, min(8, len(small)))
     else:
         small = [p for s, p in sized if s <= 1500]
-        large = [p for s, p in sized if 1500 < s <= 40000]
-        pick = frag + rng.sample(small, min(60, len(small))) + rng.sample(large, min(6, len(large)))
+        large = [p for s, p in sized if 1500 < s <= 12000]
+        pick = frag + rng.sample(small, min(plan["files_small"], len(small))) + \
+            rng.sample(large, min(plan["files_large"], len(large)))
     return pick
 
 
@@ -98,11 +99,22 @@ class Cases:
         self.path = path
         self.fh = open(path, "w")
         self.n = 0
+        self.lock = threading.Lock()
 
     def sink(self, o):
-        self.n += 1
-        o["id"] = self.n
-        self.fh.write(json.dumps(o, separators=(",", ":")) + "\n")
+        with self.lock:
+            self.n += 1
+            o["id"] = self.n
+            self.fh.write(json.dumps(o, separators=(",", ":")) + "\n")
+
+    def counting(self):
+        """A sink that also counts what went through it (generators run concurrently)."""
+        box = [0]
+
+        def f(o):
+            box[0] += 1
+            self.sink(o)
+        return f, box
 
     def close(self):
         self.fh.close()
@@ -119,16 +131,17 @@ class Cases:
 
 def _gen_exh(wd, cases, name, alphabet, maxlen, exportmin, simulate=None, workers=4):
     cfg = "MCLexInput_%s.cfg" % name
-    with open(os.path.join(wd, cfg), "w") as fh:
+    os.makedirs(os.path.join(wd, "gen_" + name), exist_ok=True)
+    with open(os.path.join(wd, "gen_" + name, cfg), "w") as fh:
         fh.write(GEN_CFG % (maxlen, exportmin, ", ".join('"%s"' % a for a in alphabet)))
-    before = cases.n
-    r = vf.tlc("MCLexInput", cfg, wd, workers=1 if simulate else workers, simulate=simulate,
+    sink, box = cases.counting()
+    r = _tlc("MCLexInput", cfg, os.path.join(wd, "gen_" + name), workers=1 if simulate else workers, simulate=simulate,
                depth=(maxlen + 1) if simulate else None, tseed=vf.seed() if simulate else None,
-               case_sink=cases.sink, timeout=1500, heap="4g")
+               case_sink=sink, timeout=1500, heap="4g")
     if r.violated:
         raise vf.MachineryError("MCLexInput: unexpected violation " + str(r.violated))
     return {"run": name, "alphabet": len(alphabet), "maxlen": maxlen, "exportmin": exportmin, "simulate": simulate,
-            "states": r.distinct, "generated": r.generated, "cases": cases.n - before}
+            "states": r.distinct, "generated": r.generated, "cases": box[0]}
 
 
 def _gen_mut(wd, binary, cases, files, stride, depths, workers=4):
@@ -139,22 +152,24 @@ def _gen_mut(wd, binary, cases, files, stride, depths, workers=4):
     if rc != 0:
         raise vf.MachineryError("explex -describe failed: " + err)
     desc = [json.loads(l) for l in out.splitlines() if l.strip()]
-    with open(os.path.join(wd, "ExpLexFiles.tla"), "w") as fh:
+    gd = os.path.join(wd, "gen_mut")
+    os.makedirs(gd, exist_ok=True)
+    with open(os.path.join(gd, "ExpLexFiles.tla"), "w") as fh:
         fh.write("---- MODULE ExpLexFiles ----\n(* generated: byte length and leaf-token byte lengths of each base file *)\n")
         fh.write("FileBytes == <<%s>>\n" % ", ".join(str(d["bytes"]) for d in desc))
         fh.write("FileTokLens == <<%s>>\n" % ", ".join("<<%s>>" % ", ".join(map(str, d["toklens"])) for d in desc))
         fh.write("====\n")
     cfg = "MCLexMutant_run.cfg"
     phase = vf.seed() % max(stride, 1)
-    with open(os.path.join(wd, cfg), "w") as fh:
+    with open(os.path.join(gd, cfg), "w") as fh:
         fh.write(MUT_CFG % (", ".join(str(i + 1) for i in range(len(files))), stride, phase,
                             ", ".join(map(str, depths))))
-    before = cases.n
-    r = vf.tlc("MCLexMutant", cfg, wd, workers=workers, case_sink=cases.sink, timeout=1500, heap="4g")
+    sink, box = cases.counting()
+    r = _tlc("MCLexMutant", cfg, gd, workers=workers, case_sink=sink, timeout=1500, heap="4g")
     if r.violated:
         raise vf.MachineryError("MCLexMutant: unexpected violation " + str(r.violated))
     return lst, {"run": "mutants", "files": len(files), "stride": stride, "phase": phase, "depths": list(depths),
-                 "states": r.distinct, "generated": r.generated, "cases": cases.n - before,
+                 "states": r.distinct, "generated": r.generated, "cases": box[0],
                  "file_bytes": sum(d["bytes"] for d in desc)}
 
 
@@ -204,7 +219,7 @@ def _validate(chunks, stem, parallel=3):
                 with open(os.path.join(d, "trace.cfg"), "w") as fh:
                     fh.write(TRACE_CFG)
                 mine = []
-                r = vf.tlc(TRACE_MODULE[stem], "trace.cfg", d, workers=1, timeout=1500, heap="6g",
+                r = _tlc(TRACE_MODULE[stem], "trace.cfg", d, workers=1, timeout=1500, heap="6g",
                            case_sink=mine.append)
                 nev = sum(1 for _ in open(os.path.join(d, TRACE_FILE[stem])))
                 if r.violated or r.postcondition_failed or r.distinct != nev + 1:
@@ -293,20 +308,63 @@ def _sanitize(msg):
 
 def _plan(tier, prop):
     if tier == "thorough":
-        return {
-            "exh": [("full", FULL, 3, 0), ("mid", MID, 4, 4), ("core", CORE, 6, 5), ("core2", CORE2, 5, 5)],
-            "sim": [("sim", FULL, 24, 3000), ("simcore", CORE, 16, 2000)],
-            "stride": 5 if prop == "parse" else 23,
-            "depths": [1, 3, 64, 2000] if prop == "parse" else [1, 3, 64],
-            "chunk": 300000,
+        if prop == "parse":      # short traces that repeat a lot: go deeper on inputs
+            return {
+                "exh": [("full", FULL, 3, 0), ("mid", MID, 4, 4), ("core", CORE, 5, 5), ("core2", CORE2, 5, 5)],
+                "sim": [("sim", FULL, 24, 100), ("simcore", CORE, 16, 200)],
+                "stride": 11, "depths": [1, 3, 64, 2000],
+                "chunk": 400000, "gen_workers": 3, "gen_parallel": 3, "files_small": 40, "files_large": 2,
+            }
+        return {                  # one trace per input (it carries the bytes): fewer, but every token is validated
+            "exh": [("full", FULL, 3, 0), ("mid", MID, 4, 4), ("core", CORE, 5, 5), ("core2", CORE2, 4, 4)],
+            "sim": [("sim", FULL, 24, 100), ("simcore", CORE, 16, 200)],
+            "stride": 37, "depths": [1, 3, 64],
+            "chunk": 400000, "gen_workers": 3, "gen_parallel": 3, "files_small": 40, "files_large": 1,
         }
     return {
         "exh": [("full", FULL, 2, 0), ("mid", MID, 3, 3), ("core", CORE, 4, 4)],
-        "sim": [("sim", FULL, 16, 300), ("simcore", CORE, 10, 300)],
-        "stride": 41 if prop == "parse" else 97,
+        # tlc -simulate checks the export invariant on every successor of the last step: num x |alphabet| cases
+        "sim": [("sim", FULL, 16, 30), ("simcore", CORE, 10, 60)],
+        "stride": 41 if prop == "parse" else 131,
         "depths": [2, 40],
-        "chunk": 150000,
+        "chunk": 120000, "gen_workers": 2, "gen_parallel": 6, "files_small": 8, "files_large": 0,
     }
+
+
+def _tlc(*a, **kw):
+    """vf.tlc, retried once when the JVM died without a TLC error (other people's jobs share this machine)."""
+    try:
+        return vf.tlc(*a, **kw)
+    except vf.MachineryError as ex:
+        if "Error:" in str(ex) or "timed out" in str(ex):
+            raise
+        time.sleep(2)
+        return vf.tlc(*a, **kw)
+
+
+def _parallel(jobs, width):
+    """Run independent generator jobs concurrently; first MachineryError wins."""
+    out, errs, sem = [None] * len(jobs), [], threading.Semaphore(width)
+
+    def work(k):
+        with sem:
+            try:
+                out[k] = jobs[k]()
+            except Exception as ex:  # noqa
+                errs.append(ex)
+    ts = [threading.Thread(target=work, args=(k,)) for k in range(len(jobs))]
+    for t in ts:
+        t.start()
+    for t in ts:
+        t.join()
+    if errs:
+        raise errs[0] if isinstance(errs[0], vf.MachineryError) else vf.MachineryError(repr(errs[0]))
+    return out
+
+
+def _t(label, t0):
+    if os.environ.get("VERIF_TIMING"):
+        print("  [%6.1fs] %s" % (time.time() - t0, label), flush=True)
 
 
 def run(pid, tier, replay=None):
@@ -314,6 +372,7 @@ def run(pid, tier, replay=None):
     prop = {"C28": "parse", "C29": "lex"}[pid]
     wd = vf.workdir(pid)
     binary = _build()
+    _t("driver built", t0)
     cases = Cases(os.path.join(wd, "cases.ndjson"))
     runs, filelist = [], None
     gen_states = gen_trans = 0
@@ -325,16 +384,21 @@ def run(pid, tier, replay=None):
         runs.append({"run": "replay", "cases": cases.n})
     else:
         plan = _plan(tier, prop)
+        files = _base_files(wd, tier, plan)
+        jobs = []
         for name, alpha, maxlen, exportmin in plan["exh"]:
-            runs.append(_gen_exh(wd, cases, name, alpha, maxlen, exportmin))
+            jobs.append(lambda a=(name, alpha, maxlen, exportmin): _gen_exh(wd, cases, *a, workers=plan["gen_workers"]))
         for name, alpha, maxlen, num in plan["sim"]:
-            runs.append(_gen_exh(wd, cases, name, alpha, maxlen, maxlen, simulate=num))
-        files = _base_files(wd, tier)
-        filelist, info = _gen_mut(wd, binary, cases, files, plan["stride"], plan["depths"])
-        runs.append(info)
+            jobs.append(lambda a=(name, alpha, maxlen, maxlen, num): _gen_exh(wd, cases, *a))
+        jobs.append(lambda: _gen_mut(wd, binary, cases, files, plan["stride"], plan["depths"], workers=plan["gen_workers"]))
+        for res in _parallel(jobs, plan["gen_parallel"]):
+            if isinstance(res, tuple):
+                filelist, res = res
+            runs.append(res)
         gen_states = sum(r["states"] for r in runs)
         gen_trans = sum(r["generated"] for r in runs)
     cases.close()
+    _t("cases generated: %d" % cases.n, t0)
     if cases.n == 0:
         raise vf.MachineryError("no cases generated")
 
@@ -371,16 +435,32 @@ def run(pid, tier, replay=None):
         return rcode
     if not stats:
         raise vf.MachineryError("explex driver printed no STATS: " + err[-1000:])
+    _t("driver done: %s" % stats, t0)
 
     # validate every recorded trace against the specification
-    plan_chunk = _plan(tier, prop)["chunk"]
+    nev = stats.get(prop + "_events", 0)
+    plan_chunk = max(40000, min(_plan(tier, prop)["chunk"], nev // 3 + 1))
     chunks, ntraces = _split(tracefile, "Begin" if prop == "lex" else "Call", plan_chunk, os.path.join(wd, "val"), prop)
     samples = _samples(tracefile, prop)
+    feats = _features(tracefile, prop)
+    if not replay:
+        vac = [f for f in NEEDED[prop] if not feats.get("traces_with_" + f)]
+        if vac:
+            raise vf.MachineryError("vacuous run: no recorded trace exercises %s" % vac)
+    _t("split into %d chunks" % len(chunks), t0)
     rejects, vstates, vtrans = _validate(chunks, prop)
+    _t("validated: %d rejects" % len(rejects), t0)
+
+    extra = {}
+    if tier == "thorough" and not replay:
+        extra["design_check"] = _design_check(wd, prop)
+        extra["binding_selftest"] = _selftest(wd, prop, tracefile, {r["reject"] for r in rejects})
+        _t("design check and binding self-test done", t0)
 
     # classify
     per_class = collections.Counter()
     need = {}
+    rejects.sort(key=lambda r: (r["len"], r["reject"]))    # smallest inputs first: they become the replay examples
     for r in rejects:
         for cls in (classify_lex(r) if prop == "lex" else classify_parse(r)):
             per_class[cls] += 1
@@ -410,12 +490,17 @@ def run(pid, tier, replay=None):
         "generator_states": gen_states, "validator_states": vstates,
         "traces_validated_against_impl": ntraces,
         "evaluations": stats.get("cases", 0) * (2 if prop == "lex" else 1),
-        "distinct_nontrivial": dist,
+        "distinct_nontrivial": feats.get("nontrivial_traces", 0),
+        "distinct_traces": dist,
+        "features": feats,
+        **extra,
         "rule": ("one evaluation = one real lexer run (each input under the parser's lexer configuration and under the same "
                  "configuration with EmitNewline set) recorded as Begin/Diag*/Emit*/End; " if prop == "lex" else
                  "one evaluation = one real parser.Parse call recorded as Call/Diag*/Return; ") +
                 "distinct = traces that differ from every other recorded trace (identical ones are suppressed by the "
-                "driver, %d suppressed); every distinct trace is validated by TLC" % dups,
+                "driver, %d suppressed); every distinct trace is validated by TLC; non-trivial = a distinct trace that has a "
+                "diagnostic%s (feature counts measured from the trace file, see features)" % (
+                    dups, ", a bracket, a fused string run, a comment or an unrecognised token" if prop == "lex" else ""),
         "rejected_by_class": dict(per_class),
         "samples": samples,
         "exhaustive": True,
@@ -430,6 +515,136 @@ def run(pid, tier, replay=None):
         "the lexer is reached through parser's own configuration (go build -overlay adds an accessor to package parser)",
     ], time.time() - t0, violations=len(verdict.violations), known=verdict.known_hits)
     return rcode
+
+
+def _features(tracefile, prop):
+    """Measured feature histogram of the recorded traces (vacuity control and distinct_nontrivial)."""
+    c = collections.Counter()
+    flags = set()
+
+    def flush():
+        if flags - {"ok_true", "ok_false"}:
+            c["nontrivial_traces"] += 1
+        for f in flags:
+            c["traces_with_" + f] += 1
+        flags.clear()
+    with open(tracefile) as fh:
+        for line in fh:
+            if prop == "lex":
+                if '"e":"Emit"' in line:
+                    c["tokens"] += 1
+                    if '"role":"open"' in line:
+                        flags.add("string_run" if '"k":"String"' in line else "fused_bracket_pair")
+                    elif '"role":"close"' in line and '"k":"Unrecognized"' in line:
+                        flags.add("implicit_closer")
+                    elif '"role":"leaf"' in line and '"br":""' not in line:
+                        flags.add("unmatched_bracket")
+                    if '"k":"Unrecognized"' in line and '"role":"leaf"' in line:
+                        flags.add("unrecognized_token")
+                    if '"k":"Comment"' in line:
+                        flags.add("comment")
+                elif '"e":"Diag"' in line:
+                    flags.add("error_diag" if ('"lvl":2' in line or '"lvl":1' in line) else "warning_diag")
+                elif '"e":"Begin"' in line:
+                    flush()
+                    c["traces"] += 1
+                    if '"cfg":"nl"' in line:
+                        c["traces_cfg_nl"] += 1
+            else:
+                if '"e":"Diag"' in line:
+                    o = json.loads(line)
+                    flags.add("level_%d" % o["lvl"])
+                    if o["spans"]:
+                        flags.add("spans")
+                    if o["edits"]:
+                        flags.add("edits")
+                elif '"e":"Return"' in line:
+                    flags.add("ok_true" if '"ok":true' in line else "ok_false")
+                elif '"e":"Call"' in line:
+                    flush()
+                    c["traces"] += 1
+    flush()
+    return dict(c)
+
+
+NEEDED = {
+    "lex": ["fused_bracket_pair", "unmatched_bracket", "implicit_closer", "string_run", "unrecognized_token",
+            "comment", "error_diag"],
+    "parse": ["level_2", "level_3", "spans", "edits", "ok_true", "ok_false"],
+}
+
+
+def _design_check(wd, prop):
+    """Thorough tier: TLC explores the design specification itself (every observation it accepts, small bounds)
+    and checks that accepted observations satisfy the property invariants; plus reachability witnesses."""
+    d = os.path.join(wd, "design")
+    os.makedirs(d, exist_ok=True)
+    mod = "MCTokenTile" if prop == "lex" else "MCExpParseCall"
+    r = _tlc(mod, mod + ".cfg", d, workers=3, timeout=900, heap="4g")
+    if r.violated:
+        raise vf.MachineryError("design-level check of %s failed: %s (see %s)" % (mod, r.violated, r.stdout_path))
+    out = {"module": mod, "states": r.distinct, "transitions": r.generated, "witnesses": []}
+    if prop == "lex":
+        base = open(os.path.join(vf.SPEC, "MCTokenTile.cfg")).read()
+        for w in ("NoDoneWithPair", "NoDoneWithUnmatched"):
+            cfg = "MCTokenTile_%s.cfg" % w
+            with open(os.path.join(d, cfg), "w") as fh:
+                fh.write("\n".join(("INVARIANTS " + w) if l.startswith("INVARIANTS") else l for l in base.splitlines()) + "\n")
+            rw = _tlc(mod, cfg, d, workers=2, timeout=900, heap="4g")
+            if rw.violated != w:
+                raise vf.MachineryError("design-level witness %s is not reachable: the model is vacuous" % w)
+            out["witnesses"].append(w)
+    return out
+
+
+def _selftest(wd, prop, tracefile, rejected_ids):
+    """Binding demonstration (thorough tier): take one real accepted trace, (a) corrupt one recorded field,
+    (b) drop one event; TLC must reject both and accept the untouched copy."""
+    head = "Begin" if prop == "lex" else "Call"
+    trace, cur = None, None
+    with open(tracefile) as fh:
+        for line in fh:
+            o = json.loads(line)
+            if o["e"] == head:
+                ok = bool(cur) and cur[0]["id"] not in rejected_ids and len(cur) >= 3
+                if ok and prop == "lex":
+                    ok = sum(1 for e in cur if e["e"] == "Emit") >= 3
+                if ok:
+                    trace = cur
+                    break
+                cur = []
+            cur.append(o)
+    if trace is None:
+        raise vf.MachineryError("self-test: no accepted trace to mutate")
+    import copy
+    a, b, c = copy.deepcopy(trace), copy.deepcopy(trace), copy.deepcopy(trace)
+    a[0]["id"], b[0]["id"], c[0]["id"] = 1, 2, 3
+    if prop == "lex":
+        k = [i for i, e in enumerate(a) if e["e"] == "Emit"][1]
+        a[k]["t"] += 1                      # corrupted end offset: overlaps the next token / leaves the input
+        del b[k]                            # dropped token: gap
+        want = {1, 2}
+    else:
+        a[-1]["ok"] = not a[-1]["ok"]       # corrupted result
+        del b[-1]                           # dropped Return: the call never returns
+        want = {1, 2}
+    d = os.path.join(wd, "selftest")
+    os.makedirs(d, exist_ok=True)
+    with open(os.path.join(d, TRACE_FILE[prop]), "w") as fh:
+        for tr in (a, b, c):
+            for e in tr:
+                fh.write(json.dumps(e, separators=(",", ":")) + "\n")
+    with open(os.path.join(d, "trace.cfg"), "w") as fh:
+        fh.write(TRACE_CFG)
+    got = []
+    r = _tlc(TRACE_MODULE[prop], "trace.cfg", d, workers=1, timeout=600, heap="2g", case_sink=got.append)
+    if r.violated or r.postcondition_failed:
+        raise vf.MachineryError("self-test: validator did not run to the end")
+    ids = {g["reject"] for g in got}
+    if ids != want:
+        raise vf.MachineryError("binding self-test failed: expected rejects %s, got %s" % (sorted(want), got))
+    return {"corrupted_field_rejected": True, "dropped_event_rejected": True, "untouched_copy_accepted": True,
+            "reasons": {str(g["reject"]): sorted(g["why"]) for g in got}}
 
 
 def _samples(tracefile, prop):
